@@ -11,7 +11,7 @@
     0 = "", 3 = "!bad" and 12 = "htlt!x" (98 = any other invalid string) are invalid; 1 = "stake" (the bond denom,
     held by every actor, a registered token); 2 = "tcoin" (valid, nobody holds it, not a registered
     token); 10, 11 = "htltbnb", "htltinc" (the only classes acceptable as HTLC assets); 99 = any
-    other valid denom.  Among the valid classes that can occur together in one coin set (1, 2) the
+    other valid denom; 4 = "btc" (valid, held by everybody); 5 = "feetok" (symbol of an issued token of scale 6).  Among the valid classes that can occur together in one coin set (1, 2) the
     numeric order is the lexicographic order of the strings. *)
 From Irismod Require Export Base.Prelude Base.Dec.
 
@@ -33,6 +33,10 @@ Definition two315 : Z := 2 ^ 315.
 Definition dec_ok (d : Z) : bool := Z.abs d <? two315.
 
 Definition in_open01 (x : Z) : bool := (0 <? x) && (x <? P18).
+
+(** amount bounds of the validators: [Amount.BigInt().BitLen() > 255] (coinswap, farm) / [> 195] (token) *)
+Definition two255 : Z := 2 ^ 255.
+Definition two195 : Z := 2 ^ 195.
 
 (** The fee split shared by coinswap [DeductPoolCreationFee], farm [DeductPoolCreationFee] and
     token [feeHandler]:
@@ -103,6 +107,27 @@ Definition update_with {P : Type} (validate : P -> outcome) (genesis_extra : P -
       else (Ok, p)
   end.
 
+(** *** InitGenesis in two stages.
+    Every module's InitGenesis first calls its [ValidateGenesis] (a failure is a panic), then
+    [SetParams], which validates again; [vg] / [sp] are what each stage checks about the parameters,
+    [gx] a module-specific condition afterwards (token: the fee denom is a registered symbol).
+      module    ValidateGenesis checks                          SetParams checks
+      coinswap  Params.Validate() (types/genesis.go, last)      Params.Validate()
+      farm      ValidateCoins("PoolCreationFee", fee) ONLY      Params.Validate()   <- the tax rate and the
+                (types/genesis.go; no call of Params.Validate)                         255-bit bound are rejected
+                                                                                       by SetParams alone
+      htlc      Params.Validate() (first)                       Params.Validate()
+      service   Params.Validate() (first)                       Params.Validate()
+      token     Params.Validate() (first)                       Params.Validate() *)
+Definition init_genesis {P : Type} (vg sp : P -> outcome) (gx : P -> bool) (p cur : P) : outcome * P :=
+  match vg p with
+  | Ok => match sp p with
+          | Ok => if gx p then (Ok, p) else (Abort, cur)
+          | _ => (Abort, cur)
+          end
+  | _ => (Abort, cur)
+  end.
+
 (** ** coinswap  (modules/coinswap/types/params.go, keeper/{fees,swap,keeper}.go) *)
 Record cs_params := mkCs { cs_fee : option Z; cs_pcf : coin; cs_tax : option Z; cs_uni : option Z }.
 
@@ -117,6 +142,7 @@ Definition validate_cs (p : cs_params) : outcome :=
            | None => Rej                                     (* ... "amount is nil" (coinswap fix; was a panic in IsPositive) *)
            | Some a =>
                if a <? 0 then Rej                            (* ... negative amount *)
+               else if two255 <=? a then Rej                 (* more than 255 bits (overflow fix) *)
                else if negb (0 <? a) then Rej                (* IsPositive *)
                else match cs_tax p with
                     | None => Abort
@@ -245,6 +271,7 @@ Definition validate_fm (p : fm_params) : outcome :=
        | None => Rej
        | Some a =>
            if a <? 0 then Rej
+           else if two255 <=? a then Rej                     (* more than 255 bits (overflow fix) *)
            else match fm_tax p with
                 | None => Abort                              (* TaxRate.GT on a nil decimal *)
                 | Some t => if negb (in_open01 t) then Rej else Ok
@@ -253,7 +280,20 @@ Definition validate_fm (p : fm_params) : outcome :=
 
 Definition update_fm := update_with validate_fm (fun _ => true).
 
-Inductive fm_op := FmCreatePool (ncat bal_fee : Z) | FmOther.
+(** farm types.ValidateGenesis: [ValidateCoins("PoolCreationFee", fee)] = [sdk.NewCoins(fee).Validate()];
+    [NewCoins] panics on an invalid denom, a nil or a negative amount; nothing else about the parameters *)
+Definition vg_fm (p : fm_params) : outcome :=
+  if negb (denom_valid (c_denom (fm_pcf p))) then Abort
+  else match c_amt (fm_pcf p) with
+       | None => Abort
+       | Some a => if a <? 0 then Abort else Ok
+       end.
+
+Inductive fm_op :=
+| FmCreatePool (ncat bal_fee : Z)
+| FmCreateCP (ncat : Z)     (* MsgCreatePoolWithCommunityPool: reward categories of a proposal whose funds, LP token
+                               and deposit are in order (the driver makes sure of that) *)
+| FmOther.
 
 (** msgServer.CreatePool -> keeper.CreatePool -> DeductPoolCreationFee *)
 Definition fm_create (p : fm_params) (ncat bal_fee : Z) : res :=
@@ -263,9 +303,14 @@ Definition fm_create (p : fm_params) (ncat bal_fee : Z) : res :=
        | Some a => fee_split 200 (denom_valid (c_denom (fm_pcf p))) a (fm_tax p) bal_fee
        end.
 
+(** msgServer.CreatePoolWithCommunityPool: the category limit; no creation fee on this path *)
+Definition fm_create_cp (p : fm_params) (ncat : Z) : res :=
+  if fm_maxcat p <? ncat then Reject else Done.
+
 Definition fm_path (p : fm_params) (o : fm_op) : option res :=
   match o with
   | FmCreatePool n b => Some (fm_create p n b)
+  | FmCreateCP n => Some (fm_create_cp p n)
   | FmOther => None
   end.
 
@@ -313,6 +358,7 @@ Fixpoint validate_assets (seen : list Z) (l : list asset) : outcome :=
       | Some mx =>
       if negb (0 <? mx) then Rej
       else if mx <? mn then Rej
+      else if negb (int_ok (f + mn)) then Rej                (* FixedFee.SafeAdd(MinSwapAmount) fails (overflow fix) *)
       else validate_assets (a_denom a :: seen) rest
       end end end end end
   end.
@@ -452,30 +498,89 @@ Definition validate_sv (p : sv_params) : outcome :=
 Definition update_sv := update_with validate_sv (fun _ => true).
 
 Inductive sv_op :=
-| SvBind (price deposit qos bal : Z)     (* MsgBindService, price and deposit in stake *)
+| SvBind (price deposit qos bal pd : Z)  (* MsgBindService: price (in denom class pd) and deposit in stake *)
 | SvCall (timeout : Z)                   (* MsgCallService, fee cap in stake *)
 | SvRespond (fee esc : Z)                (* MsgRespondService: request fee, balance of the request escrow *)
 | SvBlocks (deposits : list Z)           (* end-blockers; deposits of the bindings whose requests expire *)
+| SvUpdate (avail : bool) (price dep add qos bal : Z)
+                                         (* MsgUpdateServiceBinding (no new pricing / options): the binding met
+                                            (available, stored price and deposit in stake), deposit added, new QoS (0 = keep) *)
+| SvEnable (avail : bool) (price dep add bal : Z)   (* MsgEnableServiceBinding *)
+| SvRefund (avail : bool) (dep disabled now : Z)    (* MsgRefundServiceDeposit: disabled / block time in unix ns *)
+| SvUpdateCtx (completed : bool) (cap timeout ctx_timeout ctx_freq total batch : Z)
+                                         (* MsgUpdateRequestContext of a context the consumer created: new fee cap in
+                                            stake (0 = none), new timeout (0 = keep), repeated total, and the context met *)
 | SvOther.
 
 Definition two64 : Z := 18446744073709551616.
 
-(** keeper.AddServiceBinding: validateDeposit, QoS, GetMinDeposit, deposit >= minimum *)
-Definition sv_bind (p : sv_params) (price deposit qos bal : Z) : res :=
+(** keeper.GetMinDeposit for a price in the base denom, then [deposit.IsAllGTE(minDeposit)]:
+    [inl why] = abort, [inr b] = whether a deposit of [dep] (base denom) suffices *)
+Definition sv_deposit_enough (p : sv_params) (price dep : Z) : Z + bool :=
+  let m0 := price * sv_mult p in
+  if negb (int_ok m0) then inr false                         (* basePrice.SafeMul(minDepositMultiple) fails: an error (overflow fix) *)
+  else if m0 <? 0 then inl 401                               (* NewCoin(base, price * multiple) negative *)
+  else
+    let pst := coins_amount_of 1 (sv_mindep p) in
+    let other := existsb (fun c => negb (c_denom c =? 1)) (sv_mindep p) in
+    let use_param := negb (m0 =? 0) && (m0 <? pst) in
+    inr (if use_param then (pst <=? dep) && negb other else m0 <=? dep).
+
+(** keeper.AddServiceBinding: validateDeposit, QoS, ParsePricing (restricted fee denom), GetMinDeposit
+    (a price in another denom needs an exchange rate: none is registered), deposit >= minimum *)
+Definition sv_bind (p : sv_params) (price deposit qos bal pd : Z) : res :=
   if negb (sv_base p =? 1) then Reject                       (* deposit only accepts the base denom *)
   else if (sv_maxto p) mod two64 <? qos then Reject          (* qos > uint64(maxReqTimeout) *)
+  else if sv_restricted p && negb (pd =? sv_base p) then Reject   (* validatePricing: service fee only accepts the base denom *)
+  else if negb (pd =? sv_base p) && negb (price =? 0) then Reject (* GetExchangeRate fails *)
+  else match sv_deposit_enough p price deposit with
+       | inl w => Panic w
+       | inr false => Reject
+       | inr true => if bal <? deposit then Reject else Done
+       end.
+
+(** keeper.UpdateServiceBinding with empty pricing and options *)
+Definition sv_update (p : sv_params) (avail : bool) (price dep add qos bal : Z) : res :=
+  if negb (qos =? 0) && ((sv_maxto p) mod two64 <? qos) then Reject
+  else if negb (add =? 0) && negb (sv_base p =? 1) then Reject   (* validateDeposit *)
   else
-    let m0 := price * sv_mult p in
-    if negb (int_ok m0) then Panic 402                       (* basePrice.Mul(minDepositMultiple): "integer overflow" *)
-    else if m0 <? 0 then Panic 401                                (* NewCoin(base, price * multiple) negative *)
-    else
-      let pst := coins_amount_of 1 (sv_mindep p) in
-      let other := existsb (fun c => negb (c_denom c =? 1)) (sv_mindep p) in
-      let use_param := negb (m0 =? 0) && (m0 <? pst) in
-      let enough := if use_param then (pst <=? deposit) && negb other else m0 <=? deposit in
-      if negb enough then Reject
-      else if bal <? deposit then Reject
-      else Done.
+    let updated := negb (qos =? 0) || negb (add =? 0) in
+    let pay := if bal <? add then Reject else Done in
+    if avail && updated then
+      match sv_deposit_enough p price (dep + add) with
+      | inl w => Panic w
+      | inr false => Reject
+      | inr true => pay
+      end
+    else pay.
+
+(** keeper.EnableServiceBinding *)
+Definition sv_enable (p : sv_params) (avail : bool) (price dep add bal : Z) : res :=
+  if avail then Reject
+  else if negb (add =? 0) && negb (sv_base p =? 1) then Reject
+  else match sv_deposit_enough p price (dep + add) with
+       | inl w => Panic w
+       | inr false => Reject
+       | inr true => if bal <? add then Reject else Done
+       end.
+
+(** keeper.RefundDeposit: refundable from disabledTime + arbitration limit + complaint retrospect *)
+Definition sv_refund (p : sv_params) (avail : bool) (dep disabled now : Z) : res :=
+  if avail then Reject
+  else if dep =? 0 then Reject
+  else if now <? disabled + sv_arbitr p + sv_complaint p then Reject
+  else Done.
+
+(** keeper.UpdateRequestContext (context not created by a module) *)
+Definition sv_update_ctx (p : sv_params) (completed : bool) (cap timeout ctx_timeout ctx_freq total batch : Z) : res :=
+  if completed then Reject
+  else if negb (cap =? 0) && negb (sv_base p =? 1) then Reject   (* validateServiceFeeCap *)
+  else if sv_maxto p <? timeout then Reject
+  else
+    let t := if timeout =? 0 then ctx_timeout else timeout in
+    if ctx_freq <? t mod two64 then Reject                       (* repeatedFreq < uint64(timeout) *)
+    else if (1 <=? total) && (total <? batch) then Reject
+    else Done.
 
 (** keeper.CreateRequestContext *)
 Definition sv_call (p : sv_params) (timeout : Z) : res :=
@@ -518,7 +623,11 @@ Fixpoint sv_blocks (p : sv_params) (deps : list Z) : res :=
 
 Definition sv_path (p : sv_params) (o : sv_op) : option res :=
   match o with
-  | SvBind pr dep q b => Some (sv_bind p pr dep q b)
+  | SvBind pr dep q b pd => Some (sv_bind p pr dep q b pd)
+  | SvUpdate av pr dep add q b => Some (sv_update p av pr dep add q b)
+  | SvEnable av pr dep add b => Some (sv_enable p av pr dep add b)
+  | SvRefund av dep dis now => Some (sv_refund p av dep dis now)
+  | SvUpdateCtx c cap t ct cf tot bat => Some (sv_update_ctx p c cap t ct cf tot bat)
   | SvCall t => Some (sv_call p t)
   | SvRespond f e => Some (sv_respond p f e)
   | SvBlocks ds => Some (sv_blocks p ds)
@@ -545,20 +654,29 @@ Definition validate_tk (p : tk_params) : outcome :=
   | None => Rej                                              (* ... "amount is nil" (was a panic in IsNegative) *)
   | Some a =>
   if a <? 0 then Rej
+  else if two195 <=? a then Rej                              (* more than 195 bits (overflow fix) *)
   else if negb ((tk_beacon p =? 0) || (tk_beacon p =? 1)) then Rej
   else Ok
   end end end.
 
+(** the symbols registered in the token module: 1 = the native token (scale 0), 5 = "feetok", a token of
+    scale 6 that the driver issues before the parameters are touched *)
+Definition tk_registered (d : Z) : bool := (d =? 1) || (d =? 5).
+
 (** token InitGenesis additionally requires the fee denom to be a registered symbol *)
-Definition update_tk := update_with validate_tk (fun p => c_denom (tk_fee p) =? 1).
+Definition update_tk := update_with validate_tk (fun p => tk_registered (c_denom (tk_fee p))).
 
 Inductive tk_op :=
-| TkIssue (factor bal : Z)     (* MsgIssueToken: fee factor of the symbol (decimal), owner's stake *)
-| TkMint (factor bal : Z)      (* MsgMintToken *)
+| TkIssue (factor scale bal : Z)   (* MsgIssueToken: fee factor of the symbol (decimal), scale of the fee token,
+                                     owner's balance in the fee token's min unit *)
+| TkMint (factor scale bal : Z)    (* MsgMintToken *)
+| TkDeploy (has_contract : bool)             (* MsgDeployERC20 by the authority for an existing token *)
+| TkSwapTo (has_contract : bool) (amt bal : Z)    (* MsgSwapToERC20: amount / sender balance in the token's min unit *)
+| TkSwapFrom (has_contract : bool) (amt ebal : Z) (* MsgSwapFromERC20: amount / sender balance on the ERC20 side *)
 | TkOther.
 
 (** keeper.calcTokenIssueFee, GetToken(fee denom): the issue fee in the fee token's min unit
-    (the native token has scale 0) *)
+    *)
 Definition tk_issue_fee (p : tk_params) (F : Z) : res + Z :=
   match c_amt (tk_fee p) with
   | None => inl (Panic 501)
@@ -570,24 +688,25 @@ Definition tk_issue_fee (p : tk_params) (F : Z) : res + Z :=
         else
           let fee := if P18 <? q then dec_truncate_int q else 1 in
           if negb (denom_valid (c_denom (tk_fee p))) then inl (Panic 504)   (* NewCoin: invalid denom *)
-          else if negb (c_denom (tk_fee p) =? 1) then inl Reject            (* token does not exist *)
+          else if negb (tk_registered (c_denom (tk_fee p))) then inl Reject (* token does not exist *)
           else inr fee
   end.
 
-(** Token.ToMinCoin with scale 0: amount.Mul(1.0) -- only the overflow check matters *)
-Definition to_min_ok (x : Z) : bool := dec_ok (dec_of_int x).
+(** Token.ToMinCoin of the fee token (scale [s] <= 18): [amount.Mul(10^s)] as LegacyDec, truncated *)
+Definition to_min_ok (x s : Z) : bool := dec_ok (x * 10 ^ s * P18).
+Definition to_min (x s : Z) : Z := x * 10 ^ s.
 
 (** msgServer.IssueToken -> DeductIssueTokenFee *)
-Definition tk_issue (p : tk_params) (F bal : Z) : res :=
+Definition tk_issue (p : tk_params) (F s bal : Z) : res :=
   match tk_issue_fee p F with
   | inl r => r
   | inr fee =>
-      if negb (to_min_ok fee) then Panic 505
-      else fee_split 510 true fee (tk_tax p) bal
+      if negb (to_min_ok fee s) then Panic 505
+      else fee_split 510 true (to_min fee s) (tk_tax p) bal
   end.
 
 (** msgServer.MintToken -> DeductMintTokenFee *)
-Definition tk_mint (p : tk_params) (F bal : Z) : res :=
+Definition tk_mint (p : tk_params) (F s bal : Z) : res :=
   match tk_issue_fee p F with
   | inl r => r
   | inr fee =>
@@ -599,15 +718,38 @@ Definition tk_mint (p : tk_params) (F bal : Z) : res :=
           else
             let mf := dec_truncate_int m in
             if mf <? 0 then Panic 523                        (* NewDecCoinFromDec: negative amount *)
-            else if negb (to_min_ok mf) then Panic 524
-            else fee_split 530 true mf (tk_tax p) bal
+            else if negb (to_min_ok mf s) then Panic 524
+            else fee_split 530 true (to_min mf s) (tk_tax p) bal
       end
   end.
 
+(** keeper.DeployERC20: contract already bound, the ERC20 switch, the beacon (the EVM behind the
+    interface is the harness's mock: a deployment with a beacon succeeds) *)
+Definition tk_deploy (p : tk_params) (has_contract : bool) : res :=
+  if has_contract then Reject
+  else if negb (tk_erc20 p) then Reject
+  else if tk_beacon p =? 0 then Reject
+  else Done.
+
+(** keeper.SwapToERC20 / SwapFromERC20 (receiver is not an existing account) *)
+Definition tk_swap_to (p : tk_params) (has_contract : bool) (amt bal : Z) : res :=
+  if negb (tk_erc20 p) then Reject
+  else if negb has_contract then Reject
+  else if bal <? amt then Reject
+  else Done.
+Definition tk_swap_from (p : tk_params) (has_contract : bool) (amt ebal : Z) : res :=
+  if negb (tk_erc20 p) then Reject
+  else if negb has_contract then Reject
+  else if ebal <? amt then Reject
+  else Done.
+
 Definition tk_path (p : tk_params) (o : tk_op) : option res :=
   match o with
-  | TkIssue f b => Some (tk_issue p f b)
-  | TkMint f b => Some (tk_mint p f b)
+  | TkDeploy c => Some (tk_deploy p c)
+  | TkSwapTo c a b => Some (tk_swap_to p c a b)
+  | TkSwapFrom c a b => Some (tk_swap_from p c a b)
+  | TkIssue f sc b => Some (tk_issue p f sc b)
+  | TkMint f sc b => Some (tk_mint p f sc b)
   | TkOther => None
   end.
 
@@ -678,8 +820,6 @@ Definition ps_valid (s : pstate) : Prop :=
     reserves of an existing pool are positive, and amounts taken from the chain (request fees,
     deposits) are below 2^255 -- above that the SAME operation overflows under the default
     parameters as well. *)
-Definition two255 : Z := 2 ^ 255.
-
 Definition cs_op_wf (o : cs_op) : Prop :=
   match o with
   | CsSell x _ _ _ => 0 <= x
@@ -689,10 +829,9 @@ Definition cs_op_wf (o : cs_op) : Prop :=
   | _ => True
   end.
 
-Definition two192 : Z := 2 ^ 192.
 Definition sv_op_wf (o : sv_op) : Prop :=
   match o with
-  | SvBind price _ _ _ => 0 <= price < two192
+  | SvBind price _ _ _ _ | SvUpdate _ price _ _ _ _ | SvEnable _ price _ _ _ => 0 <= price
   | SvRespond fee _ => 0 <= fee < two255
   | SvBlocks deps => Forall (fun d => 0 <= d < two255) deps
   | _ => True
@@ -701,29 +840,12 @@ Definition sv_op_wf (o : sv_op) : Prop :=
 (** the fee factor of a symbol of 3..64 characters lies in [1.00, 205.14] *)
 Definition tk_op_wf (o : tk_op) : Prop :=
   match o with
-  | TkIssue F _ | TkMint F _ => P18 <= F
-  | TkOther => True
+  | TkIssue F sc _ | TkMint F sc _ => P18 <= F /\ 0 <= sc <= 18
+  | _ => True
   end.
-
-(** (2) The known findings (extreme magnitudes): a creation / issue fee amount of 2^255.2 or more
-    overflows the 315-bit [LegacyDec] inside the fee split.  [*_small] excludes that. *)
-Definition cs_small (p : cs_params) : Prop := amt_or0 (c_amt (cs_pcf p)) < two255.
-Definition fm_small (p : fm_params) : Prop := amt_or0 (c_amt (fm_pcf p)) < two255.
-Definition tk_small (p : tk_params) : Prop := amt_or0 (c_amt (tk_fee p)) < two255.
-(** service: the minimum deposit multiple is an int64; with a price of 2^193 or more the product
-    [price * multiple] can overflow the 256-bit Int for a large validated multiple (finding), while
-    under the default multiple (1000) prices up to 2^246 do not. *)
-Definition sv_small (p : sv_params) : Prop := sv_mult p < 2 ^ 63.
-(** same family in htlc: [FixedFee.Add(MinSwapAmount)] overflows the 256-bit Int *)
-Definition ht_small (p : ht_params) : Prop :=
-  Forall (fun a => amt_or0 (a_fixed a) + amt_or0 (a_min a) < two256) p.
-Definition ps_small (s : pstate) : Prop :=
-  cs_small (ps_cs s) /\ fm_small (ps_fm s) /\ tk_small (ps_tk s) /\ ht_small (ps_ht s) /\ sv_small (ps_sv s).
 
 Definition step_wf (st : pstep) : Prop :=
   match st with
-  | UpdCS _ p => cs_small p | UpdFM _ p => fm_small p | UpdTK _ p => tk_small p | UpdHT _ p => ht_small p
-  | UpdSV _ p => sv_small p
   | OpCS o => cs_op_wf o | OpSV o => sv_op_wf o | OpTK o => tk_op_wf o
   | _ => True
   end.
